@@ -11,7 +11,7 @@ from vf import foamdict, hexconv, lattice, util
 ID = "C01"
 BUDGET = {"quick": 4000, "thorough": 120000}
 REQUIRED = ["outcome:success", "outcome:InconsistentGradingsError", "outcome:UndefinedGradingsError",
-            "judged:edge-with-2+-blocks", "judged:wires-vs-written"]
+            "judged:edge-with-2+-blocks", "judged:wires-vs-written", "judged:second-write"]
 MIN_KEYS = 40
 RULE = (
     "random sub-assemblies of a jittered <=3x3x2 lattice (face / edge-only / vertex-only contacts), each block "
@@ -168,16 +168,33 @@ def run_case(ctx, case):
         return
 
     # ---- success: judge the file ---------------------------------------------------------------
+    if not judge_file(ctx, case, mesh, path, fam, fam_counts):
+        return
+    # history: the same mesh written a second time must satisfy the same clauses (every third case)
+    if (len(case["blocks"]) + sum(len(b["chops"]) for b in case["blocks"])) % 3 == 0:
+        path2 = util.tmpfile("c01")
+        got2, err2 = util.write_outcome(mesh, path2)
+        ctx.count("judged:second-write")
+        if got2 != "success":
+            util.rm(path2)
+            ctx.violation(f"second-write:{got2}", f"the first write succeeded, the second raised {got2}: {err2}")
+            return
+        judge_file(ctx, case, mesh, path2, fam, fam_counts, tag="second-write:")
+
+
+def judge_file(ctx, case, mesh, path, fam, fam_counts, tag=""):
+    """judge one successfully written file + the hooked wire counts; returns False after a violation"""
+    # ---- success: judge the file ---------------------------------------------------------------
     try:
         parsed = foamdict.read_blockmesh(path)
     except foamdict.ParseError as perr:
-        ctx.violation("unparsable-file", str(perr))
-        return
+        ctx.violation(tag + "unparsable-file", str(perr))
+        return False
     finally:
         util.rm(path)
     if len(parsed["blocks"]) != len(case["blocks"]):
-        ctx.violation("block-count", f"{len(parsed['blocks'])} hex entries for {len(case['blocks'])} operations")
-        return
+        ctx.violation(tag + "block-count", f"{len(parsed['blocks'])} hex entries for {len(case['blocks'])} operations")
+        return False
     # (a) one count per vertex pair, from the file alone
     counts = lattice.file_edge_counts(parsed)
     users = {}
@@ -189,18 +206,18 @@ def run_case(ctx, case):
         if len(users[pr]) >= 2:
             ctx.count("judged:edge-with-2+-blocks")
         if len(cs) > 1:
-            ctx.violation("edge-with-two-counts", f"vertex pair {sorted(pr)} carries counts {sorted(cs)} in the written file")
-            return
+            ctx.violation(tag + "edge-with-two-counts", f"vertex pair {sorted(pr)} carries counts {sorted(cs)} in the written file")
+            return False
     # (b) families vs the model
     for r, members in fam.items():
         want = fam_counts[r]
         seen = {parsed["blocks"][b]["counts"][a] for b, a in members}
         if len(seen) != 1:
-            ctx.violation("family-disagrees", f"family {members} written with counts {sorted(seen)}")
-            return
+            ctx.violation(tag + "family-disagrees", f"family {members} written with counts {sorted(seen)}")
+            return False
         if isinstance(want, int) and seen != {want}:
-            ctx.violation("family-count-differs-from-chop", f"family {members}: chop count {want}, written {sorted(seen)}")
-            return
+            ctx.violation(tag + "family-count-differs-from-chop", f"family {members}: chop count {want}, written {sorted(seen)}")
+            return False
         ctx.count("judged:family")
     # (c) hooked state: the four parallel wires of every block carry the written count
     for b, blk in enumerate(mesh.blocks):
@@ -208,13 +225,14 @@ def run_case(ctx, case):
             wc = [w.grading.count for w in blk.axes[a].wires]
             ctx.count("judged:wires-vs-written")
             if set(wc) != {parsed["blocks"][b]["counts"][a]} or len(wc) != 4:
-                ctx.violation("wires-vs-written", f"block {b} axis {a}: wire counts {wc}, written {parsed['blocks'][b]['counts'][a]}")
-                return
+                ctx.violation(tag + "wires-vs-written", f"block {b} axis {a}: wire counts {wc}, written {parsed['blocks'][b]['counts'][a]}")
+                return False
             for g, w in zip(parsed["blocks"][b]["grading"][a * 4 : a * 4 + 4] if parsed["blocks"][b]["kind"] == "edgeGrading"
                             else [parsed["blocks"][b]["grading"][a]] * 4, blk.axes[a].wires):
                 if sum(s[1] for s in g) != parsed["blocks"][b]["counts"][a] and len(g) > 1:
-                    ctx.violation("multigrading-count-sum", f"block {b} axis {a}: sections {g} vs count")
-                    return
+                    ctx.violation(tag + "multigrading-count-sum", f"block {b} axis {a}: sections {g} vs count")
+                    return False
+    return True
 
 
 def _conflict_adjacent(case, fam, fam_counts, by_pair):
